@@ -1,2 +1,202 @@
-(* C19 — property theorems (stub). *)
-From Klog Require Import Base.Prelude.
+(* C19 — the bookmark database behaves as a persistent name-to-file map.
+   Property theorems only; each is closed by [exact <lemma>] and followed by Print Assumptions.
+
+   The operating system's part (filepath.Abs in the process's working directory, what reading a target
+   file gives, filepath.Dir/Base) is a parameter of every theorem: [abs fstat dir_of base_of], with the
+   three hypotheses about [abs] written out in each statement (absolute result, fixed point on its own
+   results, valid UTF-8 preserved). The correspondence suite "paths" checks them on the real functions. *)
+From Klog Require Import Base.Prelude Base.Utf8 Model.Json Model.Bookmarks Proofs.Json Proofs.Bookmarks.
+From Coq Require Import Sorted Permutation.
+Open Scope N_scope.
+
+(* ---- 1. the JSON string codec ---- *)
+
+(* every valid UTF-8 string survives the encoder (HTML escaping off) followed by the decoder *)
+Theorem C19_json_string_roundtrip : forall s, valid_utf8 s -> decode_string (encode_string s) = Ok s.
+Proof. exact json_string_roundtrip. Qed.
+Print Assumptions C19_json_string_roundtrip.
+
+(* [valid_utf8] (the decoder never reports an error) is exactly "encoding of a list of Unicode scalar values" *)
+Theorem C19_valid_utf8_runes : forall s, valid_utf8 s <-> exists rs, Forall scalar rs /\ s = utf8_encode rs.
+Proof. exact valid_utf8_runes. Qed.
+Print Assumptions C19_valid_utf8_runes.
+
+(* arguments reach the commands unchanged (kong transcodes them through JSON) *)
+Theorem C19_kong_arg_valid : forall s, valid_utf8 s -> kong_arg s = s.
+Proof. exact kong_arg_valid. Qed.
+Print Assumptions C19_kong_arg_valid.
+
+(* every JSON value whose strings are valid UTF-8 is printed to a text that parses back to it:
+   compact, indented, and as json.Encoder writes it (with the final newline) — used by C20 as well *)
+Theorem C19_json_print_parse_compact : forall v, json_ok v -> parse_json (print_compact v) = Ok v.
+Proof. exact parse_print_compact. Qed.
+Print Assumptions C19_json_print_parse_compact.
+
+Theorem C19_json_print_parse_pretty : forall v, json_ok v -> parse_json (print_pretty v) = Ok v.
+Proof. exact parse_print_pretty. Qed.
+Print Assumptions C19_json_print_parse_pretty.
+
+Theorem C19_json_encoder_output_parses : forall pretty v, json_ok v -> parse_json (encoder_output pretty v) = Ok v.
+Proof. exact parse_encoder_output. Qed.
+Print Assumptions C19_json_encoder_output_parses.
+
+(* ---- 2. the database file ---- *)
+
+(* [db_ok abs m]: names are in normal form (not empty, no leading @), names and targets are valid UTF-8,
+   targets are fixed points of [abs] (absolute, clean), names strictly ascending (hence unique).
+   Writing such a map and reading the file back gives exactly that map; the empty map is the empty file. *)
+Theorem C19_db_roundtrip : forall abs,
+  (forall p, is_abs (abs p) = true) ->
+  forall m, db_ok abs m -> from_json abs (to_json m) = Ok m.
+Proof. intros abs H1. exact (db_roundtrip abs H1). Qed.
+Print Assumptions C19_db_roundtrip.
+
+Theorem C19_db_empty : forall abs, to_json [] = [] /\ from_json abs [] = Ok [] /\ db_ok abs [].
+Proof. intros abs. exact (conj eq_refl (conj eq_refl (db_ok_nil abs))). Qed.
+Print Assumptions C19_db_empty.
+
+(* normal form of names: exactly "not empty and no leading @"; NewName is idempotent *)
+Theorem C19_name_normal_form : forall n,
+  (new_name n = n <-> n <> [] /\ (forall t, n <> 64 :: t)) /\ new_name (new_name n) = new_name n /\ new_name [] = default_name.
+Proof. intros n. exact (conj (new_name_fixed n) (conj (new_name_idem n) eq_refl)). Qed.
+Print Assumptions C19_name_normal_form.
+
+(* the collection is a finite map: the laws of assignment, deletion and lookup *)
+Theorem C19_map_laws : forall n p m,
+  get n (set n p m) = Some p /\
+  (forall n', n' <> n -> get n' (set n p m) = get n' m) /\
+  (keys_sorted m -> get n (remove n m) = None) /\
+  (forall n', n' <> n -> get n' (remove n m) = get n' m) /\
+  (keys_sorted m -> keys_sorted (set n p m) /\ keys_sorted (remove n m) /\ all m = m).
+Proof.
+  intros n p m.
+  exact (conj (get_set_same n p m) (conj (fun n' => get_set_other n n' p m) (conj (get_remove_same n m)
+        (conj (fun n' => get_remove_other n n' m)
+              (fun H => conj (set_sorted n p m H) (conj (remove_sorted n m H) (all_sorted_id m H))))))).
+Qed.
+Print Assumptions C19_map_laws.
+
+(* All() sorts what it collects from the Go map in whatever order the map is iterated: the result is the
+   canonical representation for EVERY permutation of the bindings, so the iteration order cannot matter *)
+Theorem C19_all_order_independent : forall c m, Permutation c m -> keys_sorted m -> all c = m.
+Proof. exact all_perm. Qed.
+Print Assumptions C19_all_order_independent.
+
+(* ---- 3. histories ---- *)
+
+(* For EVERY finite sequence of set / unset / clear / list / info / resolve commands (names and paths of the
+   set commands valid UTF-8), started on any database file that reads as a well-formed map m: running the
+   commands on the FILE ([run_history]: each command re-reads the file, acts, re-writes it) and running the
+   specification on the plain MAP ([spec_history]) give, step by step, the same exit code and output
+   ([snd cr = snd sr]), a well-formed map, and a file that reads back to exactly that map. *)
+Theorem C19_bookmarks_refine : forall abs fstat dir_of base_of,
+  (forall p, is_abs (abs p) = true) -> (forall p, abs (abs p) = abs p) -> (forall p, valid_utf8 p -> valid_utf8 (abs p)) ->
+  forall ops file m, db_ok abs m -> from_json abs file = Ok m -> Forall op_ok ops ->
+  Forall2 (fun cr sr => snd cr = snd sr /\ db_ok abs (fst sr) /\ from_json abs (fst cr) = Ok (fst sr))
+          (run_history abs fstat dir_of base_of ops file) (spec_history abs fstat dir_of base_of ops m).
+Proof. intros abs fstat dir_of base_of H1 H2 H3. exact (history_refines abs fstat dir_of base_of H1 H2 H3). Qed.
+Print Assumptions C19_bookmarks_refine.
+
+(* in particular from the absent / empty file and the empty map *)
+Theorem C19_bookmarks_refine_from_empty : forall abs fstat dir_of base_of,
+  (forall p, is_abs (abs p) = true) -> (forall p, abs (abs p) = abs p) -> (forall p, valid_utf8 p -> valid_utf8 (abs p)) ->
+  forall ops, Forall op_ok ops ->
+  Forall2 (fun cr sr => snd cr = snd sr /\ db_ok abs (fst sr) /\ from_json abs (fst cr) = Ok (fst sr))
+          (run_history abs fstat dir_of base_of ops []) (spec_history abs fstat dir_of base_of ops []).
+Proof.
+  intros abs fstat dir_of base_of H1 H2 H3 ops Hops.
+  exact (history_refines abs fstat dir_of base_of H1 H2 H3 ops [] [] (db_ok_nil abs) eq_refl Hops).
+Qed.
+Print Assumptions C19_bookmarks_refine_from_empty.
+
+(* the specification never panics, hence (same replies) neither does any command of such a history *)
+Theorem C19_no_panic : forall abs fstat dir_of base_of, (forall p, is_abs (abs p) = true) ->
+  forall o m, snd (step (spec_op abs fstat dir_of base_of o) m) <> RPanic.
+Proof. intros abs fstat dir_of base_of H1. exact (spec_never_panics abs fstat dir_of base_of H1). Qed.
+Print Assumptions C19_no_panic.
+
+(* set adds or overwrites exactly one name (the unnamed bookmark being "default"), whenever it is allowed
+   (target is a valid file, or --force) *)
+Theorem C19_set_effect : forall abs fstat dir_of base_of,
+  (forall p, is_abs (abs p) = true) -> (forall p, abs (abs p) = abs p) -> (forall p, valid_utf8 p -> valid_utf8 (abs p)) ->
+  forall file m path name force, db_ok abs m -> from_json abs file = Ok m ->
+  valid_utf8 path -> valid_utf8 name -> (force = true \/ fstat (abs path) = FValid) ->
+  exists file' out, run_op abs fstat dir_of base_of (OpSet path name force) file = Ok (file', out) /\
+    from_json abs file' = Ok (set (new_name name) (abs path) m) /\
+    get (new_name name) (set (new_name name) (abs path) m) = Some (abs path) /\
+    (forall n', n' <> new_name name -> get n' (set (new_name name) (abs path) m) = get n' m).
+Proof. intros abs fstat dir_of base_of H1 H2 H3. exact (set_effect abs fstat dir_of base_of H1 H2 H3). Qed.
+Print Assumptions C19_set_effect.
+
+(* unset of an unknown name fails (exit code 6) and leaves the file exactly as it was *)
+Theorem C19_unset_unknown : forall abs fstat dir_of base_of file m name,
+  from_json abs file = Ok m -> get (new_name name) m = None ->
+  run_op abs fstat dir_of base_of (OpUnset name) file = Err (EOther 6) /\
+  step (run_op abs fstat dir_of base_of (OpUnset name)) file = (file, RFail (EOther 6)).
+Proof. intros abs fstat dir_of base_of. exact (unset_unknown abs fstat dir_of base_of). Qed.
+Print Assumptions C19_unset_unknown.
+
+(* unset of a known name removes exactly that name *)
+Theorem C19_unset_known : forall abs fstat dir_of base_of,
+  (forall p, is_abs (abs p) = true) ->
+  forall file m name p, db_ok abs m -> from_json abs file = Ok m -> get (new_name name) m = Some p ->
+  exists file' out, run_op abs fstat dir_of base_of (OpUnset name) file = Ok (file', out) /\
+    from_json abs file' = Ok (remove (new_name name) m) /\
+    get (new_name name) (remove (new_name name) m) = None /\
+    (forall n', n' <> new_name name -> get n' (remove (new_name name) m) = get n' m).
+Proof. intros abs fstat dir_of base_of H1. exact (unset_known abs fstat dir_of base_of H1). Qed.
+Print Assumptions C19_unset_known.
+
+(* the listing prints exactly the map's bindings, one line each, in strictly ascending (byte) order of names *)
+Theorem C19_list_sorted : forall abs fstat dir_of base_of file m,
+  db_ok abs m -> from_json abs file = Ok m -> m <> [] ->
+  run_op abs fstat dir_of base_of OpList file = Ok (file, flat_map line_of m) /\
+  StronglySorted (fun a b => bytes_ltb (fst a) (fst b) = true) m.
+Proof. intros abs fstat dir_of base_of. exact (list_sorted abs fstat dir_of base_of). Qed.
+Print Assumptions C19_list_sorted.
+
+(* ---- non-vacuity ---- *)
+
+(* a well-formed map with Unicode, a quote and a space in names and targets, for the lexical Unix [abs] *)
+Definition ex_abs : bytes -> bytes := unix_abs b!"/home/u".
+Definition ex_map : coll :=
+  [ (b!"a""b", b!"/data/my file.klg");
+    (b!"default", b!"/home/u/t.klg");
+    ([195; 188; 98], [47; 230; 151; 165; 46; 107; 108; 103]) ].
+
+Example C19_nonvacuous_db :
+  Forall (fun e => new_name (fst e) = fst e /\ valid_utf8b (fst e) = true /\ valid_utf8b (snd e) = true /\ ex_abs (snd e) = snd e) ex_map
+  /\ from_json ex_abs (to_json ex_map) = Ok ex_map
+  /\ to_json ex_map <> [].
+Proof.
+  split; [repeat constructor; vm_compute; reflexivity|].
+  split; [vm_compute; reflexivity | vm_compute; congruence].
+Qed.
+
+(* a history that exercises every command, with @-prefixes, the unnamed bookmark and an unknown name:
+   file-level run and map-level specification agree step by step (computed) *)
+Definition ex_fstat (p : bytes) : fstatus := if bytes_eqb p b!"/home/u/t.klg" then FValid else FMissing.
+Definition ex_ops : list op :=
+  [ OpSet b!"t.klg" [] false; OpSet b!"./x/../t.klg" b!"@@w k" false; OpSet b!"nope.klg" b!"q" false;
+    OpSet b!"nope.klg" b!"q" true; OpList; OpInfo b!"@w k" IPath; OpResolve []; OpResolve [b!"@q"];
+    OpUnset b!"zz"; OpUnset b!"@default"; OpResolve []; OpClear; OpList ].
+
+Example C19_nonvacuous_history :
+  map snd (run_history ex_abs ex_fstat unix_dir unix_base ex_ops []) =
+  map snd (spec_history ex_abs ex_fstat unix_dir unix_base ex_ops [])
+  /\ map (fun cr => from_json ex_abs (fst cr)) (run_history ex_abs ex_fstat unix_dir unix_base ex_ops []) =
+     map (fun sr => Ok (fst sr)) (spec_history ex_abs ex_fstat unix_dir unix_base ex_ops [])
+  /\ Forall (fun o => match o with OpSet p n _ => valid_utf8b p && valid_utf8b n = true | _ => True end) ex_ops
+  /\ length (filter (fun r => match r with ROk _ => true | _ => false end)
+                    (map snd (run_history ex_abs ex_fstat unix_dir unix_base ex_ops []))) = 9%nat.
+Proof.
+  split; [vm_compute; reflexivity|]. split; [vm_compute; reflexivity|].
+  split; [repeat constructor | vm_compute; reflexivity].
+Qed.
+
+Example C19_nonvacuous_string :
+  valid_utf8 [34; 92; 10; 1; 226; 128; 168; 240; 159; 152; 128; 195; 169; 127]
+  /\ encode_string [34; 92; 10; 1; 226; 128; 168; 240; 159; 152; 128; 195; 169; 127]
+     = [34; 92; 34; 92; 92; 92; 110; 92; 117; 48; 48; 48; 49; 92; 117; 50; 48; 50; 56; 240; 159; 152; 128; 195; 169; 127; 34]
+  /\ valid_utf8b [237; 160; 128] = false /\ encode_string [255] = [34; 92; 117; 102; 102; 102; 100; 34].
+Proof. repeat split; vm_compute; reflexivity. Qed.
